@@ -14,6 +14,7 @@ verus! {
 //%% include-assumed prelude/bottomup.rs
 //%% include-assumed inc/bddbuilder.rs
 //%% include trusted/model_iter.rs
+//%% include trusted/heap_stub.rs
 //%% include inc/robdd.rs
 } // verus!
 fn main() {}
